@@ -722,6 +722,14 @@ class ProcProxy:
         self.stdin = stdin
         self.stdout = stdout
         self.stderr = stderr
+        # wait() hands the alias what these stand for.  The public attributes
+        # are what the pipeline reads from, and a merge flag (``2`` of
+        # ``o>e``, ``subprocess.STDOUT`` of ``e>o``) is not a readable handle.
+        self._out_handle, self._err_handle = stdout, stderr
+        if isinstance(stdout, int) and stdout == 2:
+            self.stdout = None
+        if isinstance(stderr, int) and stderr == subprocess.STDOUT:
+            self.stderr = None
         self.universal_newlines = universal_newlines
         self.close_fds = close_fds
         self.env = env
@@ -752,12 +760,22 @@ class ProcProxy:
             stdin = io.TextIOWrapper(inbuf, encoding=enc, errors=err)
             if isinstance(self.stdin, int):
                 owned_handles.append(stdin)
-        stdout = self._pick_buf(self.stdout, sys.stdout, enc, err)
-        if stdout is not self.stdout and stdout is not sys.stdout:
-            owned_handles.append(stdout)
-        stderr = self._pick_buf(self.stderr, sys.stderr, enc, err)
-        if stderr is not self.stderr and stderr is not sys.stderr:
-            owned_handles.append(stderr)
+        out_h, err_h = self._out_handle, self._err_handle
+        merge_out = isinstance(out_h, int) and out_h == 2  # o>e
+        merge_err = isinstance(err_h, int) and err_h == subprocess.STDOUT  # e>o
+        stdout = None
+        if not merge_out:
+            stdout = self._pick_buf(out_h, sys.stdout, enc, err)
+            if stdout is not out_h and stdout is not sys.stdout:
+                owned_handles.append(stdout)
+        if merge_err and stdout is not None:
+            stderr = stdout
+        else:
+            stderr = self._pick_buf(None if merge_err else err_h, sys.stderr, enc, err)
+            if stderr is not err_h and stderr is not sys.stderr:
+                owned_handles.append(stderr)
+        if stdout is None:
+            stdout = stderr
         # run the actual function
         try:
             alias_env = {}
